@@ -108,11 +108,19 @@ static adouble scalar_program(Rng& g, std::vector<adouble>& x) {
   return y;
 }
 
-static void c12_workload(uint64_t seed, int k, int rounds, Result& r) {
+// `given`: a stack CONSTRUCTED BY ANOTHER THREAD (the main thread, `Stack(false)`: not activated there) that this thread takes
+// over: it activates it here, owns it for the whole workload and deactivates it at the end.  Which thread ran the constructor
+// must not matter: the results are compared with the solo run like the others.
+static void c12_workload(uint64_t seed, int k, int rounds, Result& r, Stack* given = 0) {
   Rng g(seed * 1000003ull + (uint64_t)k * 7919ull + 17ull);
   check_null(r);                         // before this thread owns a stack
   {
-    Stack stack;                         // constructor activates it in THIS thread
+    struct Owner {
+      Stack* p; bool mine;
+      Owner(Stack* gv) : p(gv), mine(gv == 0) { if (mine) p = new Stack; else p->activate(); }   // `new Stack` activates it in THIS thread
+      ~Owner() { if (mine) delete p; else p->deactivate(); }
+    } owner(given);
+    Stack& stack = *owner.p;
     check_active(r, &stack);
     for (int round = 0; round < rounds; ++round) {
       int n = 2 + g.below(5);
@@ -248,10 +256,14 @@ static int run_c12(int T, uint64_t seed, int rounds) {
   std::vector<long> idle_bad(2, 0), idle_samples(2, 0);
   long main_bad = 0, main_samples = 0;
   std::vector<std::thread> th;
+  // every second worker takes over a stack the MAIN thread constructed without activating it (a pool of stacks built up front)
+  std::vector<Stack*> pool(T, (Stack*)0);
+  for (int k = 1; k < T; k += 2) pool[k] = new Stack(false);
+  std::printf("pool main_made=%d main_ptr_null=%d\n", T / 2, active_stack() == 0 ? 1 : 0);
   for (int k = 0; k < T; ++k)
     th.emplace_back([&, k] {
       bar.arrive_and_wait();
-      try { c12_workload(seed, k, rounds, par[k]); }
+      try { c12_workload(seed, k, rounds, par[k], pool[k]); }
       catch (const std::exception& e) { par[k].exception = e.what(); }
       finished.fetch_add(1);
     });
@@ -270,6 +282,8 @@ static int run_c12(int T, uint64_t seed, int rounds) {
     std::this_thread::yield();
   } while (finished.load() < T);
   for (size_t i = 0; i < th.size(); ++i) th[i].join();
+  for (int k = 0; k < T; ++k) delete pool[k];     // destroyed by main, deactivated by the worker: main's pointer must stay null
+  if (active_stack() != 0) main_bad++;
   int bad = 0;
   for (int k = 0; k < T; ++k) {
     bool eq = (par[k].bits == solo[k].bits);
